@@ -5,6 +5,7 @@ import (
 	"encoding/hex"
 	"encoding/json"
 	"fmt"
+	"hash/fnv"
 	"os"
 	"runtime"
 	"sort"
@@ -79,6 +80,63 @@ type Kernel struct {
 	AdvanceWeight int // 1 in (len(P)*ReleaseWeight+AdvanceWeight)
 	ReleaseWeight int
 	FIFO          bool
+
+	// Starvation bias, drawn once per run: one class of goroutines (by hook-point family, or a pseudo-random
+	// subset of actors) is released 8x or 64x less often than the others, so that orderings which need one
+	// party to lag far behind (a slow WARC writer, a slow queue sender) are reached with useful probability.
+	slowInit   bool
+	slowPrefix string
+	slowSel    int // -1: none; otherwise actors with fnv(actor)%5 == slowSel
+	slowDiv    int
+}
+
+var slowClasses = []string{"warc.write", "lq.fin", "lq.prod", "lq.sender", "lq.fetch", "hq.fin", "hq.prod", "hq.", "fin.", "post.", "arch.", "fetch.", "pre.", "reactor.", "origin.", "pause.", "disk.", "rl."}
+
+func (k *Kernel) initSlow() {
+	k.slowInit = true
+	k.slowSel = -1
+	switch k.tape.DrawSched(4) {
+	case 2:
+		k.slowDiv = 8
+	case 3:
+		k.slowDiv = 64
+	default:
+		return
+	}
+	c := k.tape.DrawSched(len(slowClasses) + 5)
+	if c < len(slowClasses) {
+		k.slowPrefix = slowClasses[c]
+	} else {
+		k.slowSel = c - len(slowClasses)
+	}
+	k.logSched("slow", fmt.Sprintf("%s/%d 1/%d", k.slowPrefix, k.slowSel, k.slowDiv))
+}
+
+// SetSlow fixes the starvation bias for this run (planned cases).
+func (k *Kernel) SetSlow(prefix string, div int) {
+	if div <= 1 {
+		div = 64
+	}
+	k.slowInit, k.slowPrefix, k.slowSel, k.slowDiv = true, prefix, -1, div
+}
+
+func (k *Kernel) weightOf(pg *parkedG) int {
+	w := k.ReleaseWeight * 64
+	if k.slowDiv == 0 {
+		return w
+	}
+	slow := false
+	if k.slowPrefix != "" {
+		slow = strings.HasPrefix(pg.ev.Point, k.slowPrefix)
+	} else if k.slowSel >= 0 {
+		h := fnv.New32a()
+		h.Write([]byte(pg.ev.Actor))
+		slow = int(h.Sum32()%5) == k.slowSel
+	}
+	if slow {
+		return w / k.slowDiv
+	}
+	return w
 }
 
 var advanceQuanta = []time.Duration{time.Millisecond, 50 * time.Millisecond, 250 * time.Millisecond, time.Second, 5 * time.Second, 30 * time.Second}
@@ -326,6 +384,11 @@ func (k *Kernel) Run(hook func()) string {
 			k.advance(30 * time.Second)
 			continue
 		}
+		if k.idleFn != nil && !k.allIdle(P) {
+			// work is parked (possibly starved for a long simulated time): the idle clock starts only once it has been
+			// released and has had the chance to go to sleep on a timer
+			k.lastBusy = k.Now()
+		}
 		if k.idleFn != nil && k.allIdle(P) {
 			// independent idle pollers: release them together, no choice to record
 			runtime.SimSetBias(1)
@@ -348,15 +411,28 @@ func (k *Kernel) Run(hook func()) string {
 					break
 				}
 			}
-			total := len(P)*k.ReleaseWeight + advW
-			d := k.tape.DrawSched(total)
-			if d >= len(P)*k.ReleaseWeight {
+			if !k.slowInit {
+				k.initSlow()
+			}
+			relTotal := 0
+			for _, pg := range P {
+				relTotal += k.weightOf(pg)
+			}
+			d := k.tape.DrawSched(relTotal + advW*64)
+			if d >= relTotal {
 				q := advanceQuanta[k.tape.DrawSched(len(advanceQuanta))]
 				k.logSched("advance", q.String())
 				k.advance(q)
 				continue
 			}
-			idx = d / k.ReleaseWeight
+			for i, pg := range P {
+				w := k.weightOf(pg)
+				if d < w {
+					idx = i
+					break
+				}
+				d -= w
+			}
 		}
 		bias := uint64(1 + k.tape.Draw(1<<16))
 		runtime.SimSetBias(bias)
